@@ -83,10 +83,12 @@ Step(m, e) ==
                   proc |-> e.proc, missing |-> Missing(m, m.snap[e.proc])]} ELSE {}>>
     [] e.ev = "ExportBegin" ->
          LET ids == SeqToSet(e.ids) IN
-         <<[m EXCEPT !.handed = @ \cup ids, !.inflight = TRUE],
+         <<[m EXCEPT !.handed = @ \cup {i \in ids : i > 0}, !.inflight = TRUE],
            (IF ids \cap m.handed # {} \/ Cardinality(ids) # Len(e.ids)
               THEN {[kind |-> "exported-twice", ids |-> (ids \cap m.handed)]} ELSE {})
            \cup (IF Len(e.ids) > m.cfg.maxbatch THEN {[kind |-> "batch-too-large", n |-> Len(e.ids)]} ELSE {})
+           \* what is handed over are the ended spans: no nil entry (-1), no span the scenario did not end (0)
+           \cup (IF \E i \in ids : i <= 0 THEN {[kind |-> "exported-invalid-span"]} ELSE {})
            \cup (IF m.inflight THEN {[kind |-> "concurrent-export"]} ELSE {})
            \cup (IF m.expShut THEN {[kind |-> "export-after-shutdown"]}
                  ELSE IF m.sdNil = {} THEN (IF m.sdRetErr THEN {[kind |-> "obs:export-after-shutdown-returned-error"]} ELSE {})
